@@ -423,6 +423,28 @@ theorem recv_publish_delivery_exact_shared (s : Server) (hs : SyncInv s) (hw : W
     (inboundMsg s i 0 dup retain 0 topic payload me) rfl rfl rfl n
   exact ⟨h1, h4, h5⟩
 
+/-! ## "Matching candidate entry", declaratively -/
+
+/-- **the candidate entries are exactly the matching shared subscriptions of the index** (`shared_candidates_iff`:
+    C01's scan exactness for shared subscriptions, with the declarative matcher).  In every state reached by a
+    sequential history, for a non-empty topic without `#` level:
+
+    1. the candidate entry keyed by the filter string `f` holds `sub` for client `c` iff the index holds the shared
+       subscription `sub` of `c`, its filter is `f`, and the topic part of `f` (after `$share/<group>/`)
+       `specMatch`es the topic (`MatchingShared`);
+    2. the candidate map has one entry per filter string, no entry is empty, every member is filed under its own
+       filter, one member per client id (`SharedOK`);
+    3. whoever is picked holds a matching shared subscription. -/
+theorem C06_candidate_entries_exact (caps : Caps) (s : Server) (hr : ReachSeq caps s) (topic : Str)
+    (hne : topic ≠ []) (hnh : ∀ t ∈ splitLevels topic, t ≠ [hash]) :
+    (∀ f c sub, sharedGet (subscribers s.topics topic).shared f c = some sub ↔
+      sub.filter = f ∧ MatchingShared s.topics topic c sub) ∧
+    SharedOK (subscribers s.topics topic).shared ∧
+    (∀ c sub, PickedWith s topic c sub → MatchingShared s.topics topic c sub) :=
+  ⟨fun f c sub => shared_candidates_iff s.topics hr.inv.1.idx topic hne hnh f c sub,
+   subscribers_sharedOK s.topics topic,
+   fun c sub h => (mem_candidate_iff s.topics hr.inv.1.idx topic hne hnh c sub).mp (pickedWith_member h)⟩
+
 /-! ## Non-vacuity
 
 `c03History` (five network clients, an inline subscriber on `a/b`, a read denial) extended with two share groups —
@@ -523,6 +545,7 @@ end Mochi.Broker
 #print axioms Mochi.Broker.C06_one_receiver_per_candidate_seq_partial
 #print axioms Mochi.Broker.C06_one_receiver_per_group_seq_partial
 #print axioms Mochi.Broker.C06_full_false_F06
+#print axioms Mochi.Broker.C06_candidate_entries_exact
 #print axioms Mochi.Broker.C06_delivery_exact_reach_partial
 #print axioms Mochi.Broker.recv_publish_delivery_exact_shared
 #print axioms Mochi.Broker.c06State_reach
